@@ -6,7 +6,7 @@
           (or the rate obtained through it) differs
    {"op":"tariffs","file":f,"start":t,"n":n,"period":p}       → get_tariffs
    {"op":"tariffs_us","file":f,"start_us":µs,"n":n,"step_us":µs} → get_tariffs, any start / timedelta step
-   {"op":"iface","file":f,"sim_start":t,"period":p,"idx":i,"n":n}  → Interface.get_prices / get_demand_charge
+   {"op":"iface","file":f,"sim_start":t,"period":p,"iteration":i,"start":k|null,"n":n}  → Interface.get_prices / get_demand_charge
    {"op":"cost","file":f,"sim_start":t,"period":p,"agg":[bits…]}   → energy_cost, demand_charge
    {"op":"load","file":f}                                      → the loaded schedule list
    {"op":"decimal","from":a,"to":b}                            → Decimal hour value + flipOk per second of day
@@ -126,9 +126,11 @@ def handle (j : Json) : Except String Json := do
     let r := getTariffsUs l (← getInt j "start_us") (← getNat j "n") (← getInt j "step_us")
     pure (Json.mkObj [("prices", jResL r)])
   else if op == "iface" then
-    let st ← getInt j "sim_start"; let p ← getNat j "period"; let idx ← getInt j "idx"
-    pure (Json.mkObj [("prices", jResL (interfacePrices l st p idx (← getNat j "n"))),
-      ("demand", jRes (interfaceDemand l st p idx))])
+    let st ← getInt j "sim_start"; let p ← getNat j "period"
+    let it ← getNat j "iteration"
+    let start ← getOpt j "start" (fun v => v.getInt?)
+    pure (Json.mkObj [("prices", jResL (interfacePrices l st p it start (← getNat j "n"))),
+      ("demand", jRes (interfaceDemand l st p it start))])
   else if op == "cost" then
     let st ← getInt j "sim_start"; let p ← getNat j "period"
     let agg ← getFs j "agg"
